@@ -6,6 +6,7 @@ CONSTANTS
   MaxOps = 3
   RawKeyLookup = FALSE
   RawKeyDup = FALSE
+  RawKeyMerge = FALSE
 INVARIANT TypeOK
 INVARIANT EditsAreHandEdits
 INVARIANT ListEachOnce
